@@ -500,6 +500,16 @@ def run_specs(chk, F, specs, floor_n):
         for bits in spec.get("bits", (32, 64)):
             key = "%s:f%d" % (spec["name"], bits)
             inst = find(F, spec["fn"], bits) if spec.get("generic", True) else next((i for i in F.instances if i.get("full") and i["path"] == spec["fn"]), None)
+            if inst is None and not spec["fn"].startswith("<"):
+                # a free function moved inside its module (`binomial::btpe::lambda` -> `binomial::lambda`): the only function of that name in that module
+                segs_ = spec["fn"].split("::")
+                want_ = "f32" if bits == 32 else "f64"
+                cands_ = {i["path"]: i for i in F.instances if i.get("full") and i.get("krate") == "rand_distr" and not i["path"].startswith("<") and not i.get("closure_of")
+                          and i["path"].split("::")[0] == segs_[0] and i["path"].split("::")[-1].split("<")[0] == segs_[-1].split("<")[0]
+                          and (not spec.get("generic", True) or want_ in i["key"])}
+                if len(cands_) == 1:
+                    inst = next(iter(cands_.values()))
+                    chk.notes.append("%s: `%s` was found as `%s`" % (spec["name"], spec["fn"], inst["path"]))
             if inst is None:
                 chk.violation("anchor", key, "function %s not found in the extracted program" % spec["fn"])
                 continue
